@@ -21,6 +21,7 @@ class Shadow:
         self.token = 0
         self.ev = []
         self.fresh = 10
+        self.nrules = 0
 
     def tok(self):
         self.token += 1
@@ -86,6 +87,24 @@ class Shadow:
         for n in list(self.names):
             self.names[n] = [x for x in self.names[n] if x != c]
 
+    def add_match(self, c):
+        """match rules on unicast traffic: mostly eavesdrop='true', held by recipients (own incoming traffic), senders and
+        bystanders alike; type / sender / destination keys"""
+        rnd = self.rnd
+        def name():
+            r = rnd.random()
+            if r < 0.6 and self.live:
+                return "u%d" % rnd.choice(list(self.live))
+            return "n%d" % rnd.choice((0, 1, 2))
+        ev = 1 if rnd.random() < 0.8 else 0
+        ty = rnd.choice("xxxxcres")
+        sd = name() if rnd.random() < 0.3 else "x"
+        ds = name() if rnd.random() < 0.4 else "x"
+        if not ev and ty == "x" and sd == "x" and ds == "x":
+            ty = "s"
+        self.nrules += 1
+        self.ev.append("M.%d.%d.%d.%s.%s.%s" % (c, self.serial(), ev, ty, sd, ds))
+
     def name_op(self, c):
         rnd = self.rnd
         n = rnd.choice((0, 1, 2))
@@ -123,10 +142,10 @@ def gen_history(rnd, cfg, mode, nsteps):
         w = {"call": 6, "connect": 1.0 if len(live) < 4 and sh.nextid < 6 else 0, "disc": 1.3,
              "genuine": 5 if sh.out else 0, "dup": 2 if sh.done else 0, "wrong": 2 if sh.out else 0,
              "third": 2 if sh.out and len(live) >= 3 else 0, "tothird": 2 if sh.out and len(live) >= 3 else 0,
-             "callrs": 0.7 if sh.out or sh.done else 0.2, "sigrs": 0.5, "unsol": 0.8, "sig": 0.8, "name": 1.0,
+             "callrs": 0.7 if sh.out or sh.done else 0.2, "sigrs": 0.5, "unsol": 0.8, "sig": 0.8, "name": 1.0, "match": 0.3,
              "tick": ((10.0 if sh.out else 2.0) if nticks < 3 else 0) if timed else 0.15}
         if mode == "c05":
-            w.update({"name": 4, "sig": 3, "call": 6, "unsol": 2.5, "genuine": 3 if sh.out else 0, "dup": 0.5 if sh.done else 0,
+            w.update({"match": 2.5 if sh.nrules < 5 else 0.3, "name": 4, "sig": 3, "call": 6, "unsol": 2.5, "genuine": 3 if sh.out else 0, "dup": 0.5 if sh.done else 0,
                       "wrong": 0.5 if sh.out else 0, "third": 0.5 if w["third"] else 0, "tothird": 0.5 if w["tothird"] else 0})
         kinds = [k for k in w if w[k] > 0]
         kind = rnd.choices(kinds, [w[k] for k in kinds])[0]
@@ -192,6 +211,8 @@ def gen_history(rnd, cfg, mode, nsteps):
             sh.send(c, "s", sh.pick_dest(c))
         elif kind == "name":
             sh.name_op(rnd.choice(live))
+        elif kind == "match":
+            sh.add_match(rnd.choice(live))
         elif kind == "tick":
             nticks += 1
             d = rnd.choice((TICK_PART, TICK_PART, TICK_FULL, TICK_FULL)) if timed else 40
@@ -252,6 +273,18 @@ def scenarios():
                                                 ret(1, "u0", 2, 7, 3), call(0, "n0", 8, 4), "D.2", call(0, "n0", 9, 5, na=1), call(0, "n0", 9, 6)]))
         S.append(("name-replace", (R, 5, -1), ["C0", "C0", "C0", "R.1.20.1.1", "R.2.21.1.3", call(0, "n1", 7, 1), "R.1.22.1.6", call(0, "n1", 8, 2),
                                                "R.1.23.1.2", "D.2", call(0, "n1", 9, 3), "S.0.s.0.0.4.0.n1.0.4", "S.0.e.0.0.5.3.n1.0.5"]))
+    for R in (0, 1):
+        allty = [ret(0, "u1", 31, 5, 1), ret(0, "u1", 32, 5, 2, ty="e"), "S.0.s.0.0.33.0.u1.0.3", call(0, "u1", 34, 4, nr=1), call(0, "u1", 35, 5),
+                 "S.0.s.0.0.36.0.n0.0.6", call(0, "n0", 37, 7, nr=1)]
+        # the addressed recipient holds eavesdrop rules matching its own incoming traffic: still exactly one copy
+        S.append(("match-own-rule", (R, 50, -1), ["C0", "C0", "C0", "R.1.20.0.0", "M.1.21.1.x.x.x", "M.1.22.1.s.x.u1", "M.1.23.1.x.u0.n0"] + allty))
+        # recipient with own rule + pure eavesdropper + bystander with ordinary rules + eavesdropping sender
+        S.append(("match-mixed", (R, 50, -1), ["C0", "C0", "C0", "C0", "R.1.20.0.0", "M.1.21.1.x.x.x", "M.2.22.1.x.x.x", "M.2.23.1.s.x.x", "M.3.24.0.s.x.x",
+                                               "M.3.25.0.x.u0.x", "M.0.26.1.x.x.u1"] + allty + ["D.2", "S.0.s.0.0.38.0.u1.0.8"]))
+        # rule keyed on a well-known name whose owner changes; eavesdropper without fd passing and an fd-carrying message
+        S.append(("match-name-handover", (R, 50, -1), ["C1", "C1", "C0", "C1", "R.1.20.0.0", "R.3.21.0.0", "M.2.22.1.x.x.n0", "M.3.23.1.x.x.n0", "M.1.24.1.x.n0.x",
+                                                       "S.0.s.0.0.30.0.n0.0.1", "S.0.s.0.0.31.0.u1.1.2", "S.0.s.0.0.32.0.u3.0.3", "L.1.25.0", "S.0.s.0.0.33.0.n0.0.4",
+                                                       "S.0.s.0.0.34.0.u1.0.5", "S.3.s.0.0.35.0.u0.0.6", "S.1.s.0.0.36.0.u0.0.7"]))
     return S
 
 
